@@ -25,6 +25,7 @@ fn name_chars() -> &'static [char] {
         }
         // 'à' 'Å': the last UTF-8 byte (A0, 85) read as Latin-1 is white space
         v.extend(['é', '中', '😀', '\u{7f}', 'à', 'Å']);
+        v.extend(crate::gen::LOW_BYTE_SPECIAL);
         v
     })
 }
